@@ -124,6 +124,7 @@ CONF_UPDATE_HOOK(iauth_class_conf_changed)
     struct conf_node_object *obj;
     struct conf_node_string *str;
     struct set_node *it;
+    struct set_node *jt;
     unsigned int n_rules;
     unsigned int o_idx = 0;
     int res;
@@ -138,6 +139,11 @@ CONF_UPDATE_HOOK(iauth_class_conf_changed)
         if (base->type != CONF_OBJECT)
             continue;
         obj = set_node_data(it);
+
+        /* Notice later edits inside this rule. */
+        obj->base.hook = iauth_class_conf_changed;
+        for (jt = set_first(&obj->contents); jt != NULL; jt = set_next(jt))
+            ((struct conf_node_base *)set_node_data(jt))->hook = iauth_class_conf_changed;
 
         /* Load the new rule. */
         rule = &new_rules.vec[new_rules.used];
